@@ -50,7 +50,8 @@ def _match_known(prop, hname, v):
             continue  # "fixed" entries suppress nothing
         if f["property"] != prop or not fnmatch.fnmatchcase(hname, f["harness"]):
             continue
-        if f["label"] != v["label"]:
+        labels = f["label"] if isinstance(f["label"], list) else [f["label"]]
+        if not any(fnmatch.fnmatchcase(v["label"], pat) for pat in labels):
             continue
         want = f.get("tags", {})
         tags = v.get("tags", {})
